@@ -67,6 +67,9 @@ structure DStmt where
   clauses : List Clause := []
   lower : Option Time := none
   upper : Option Time := none
+  /-- HAVING of a CONSTRUCT / DECONSTRUCT: does a solution of the WHERE pattern pass (`none`: the evaluation
+      fails, and with it the statement). Without HAVING every solution passes. -/
+  keep : Row → Option Bool := fun _ => some true
 
 inductive Outcome where
   | ok
@@ -93,7 +96,7 @@ def updateAll (st : VStore) (targets : List Bytes) (f : VGraph → VGraph) : VSt
 /-! ### Template instantiation (`processConstructClause`, `processPredicateObjectPair`, `cellToObject`) -/
 
 inductive TErr where
-  | missesBinding | needsNode | needsPredicate | needsTime | emptyCell | stringCell | nilComponent
+  | missesBinding | needsNode | needsPredicate | needsTime | emptyCell | stringCell | nilComponent | having
   deriving DecidableEq, Repr
 
 def cellToObject : Cell → Except TErr Obj
@@ -194,10 +197,22 @@ def instAll (hasB : Bytes → Bool) (ccs : List CClause) (rows : List Row) (next
     let (ts, used) ← instClause hasB cr.1 (blankNode acc.2) cr.2
     pure (acc.1 ++ ts, if used then acc.2 + 1 else acc.2)) ([], next)
 
-/-- The rows a CONSTRUCT template is instantiated on. -/
-def whereRows (st : VStore) (d : DStmt) : List Row :=
+/-- The solutions of the WHERE pattern over the FROM graphs. -/
+def solutionRows (st : VStore) (d : DStmt) : List Row :=
   let scan := d.inputs.flatMap fun n => (st.get n).getD []
-  (solutionsO scan (d.lower.map (·.nanos)) (d.upper.map (·.nanos)) d.clauses).map fun r =>
+  solutionsO scan (d.lower.map (·.nanos)) (d.upper.map (·.nanos)) d.clauses
+
+/-- The solutions HAVING keeps (it sees the whole solution, not only the bindings of the template). -/
+def keptRows (d : DStmt) : List Row → Except TErr (List Row)
+  | [] => .ok []
+  | r :: rest =>
+    match d.keep r with
+    | none => .error .having
+    | some b => (keptRows d rest).map fun rs => if b then r :: rs else rs
+
+/-- The rows a CONSTRUCT template is instantiated on: the kept solutions, projected onto the template's bindings. -/
+def whereRows (st : VStore) (d : DStmt) : Except TErr (List Row) :=
+  (keptRows d (solutionRows st d)).map fun rows => rows.map fun r =>
     d.outBindings.foldl (fun out k => match r.get k with | some c => out ++ [(k, c)] | none => out) []
 
 /-- Executing a statement. -/
@@ -210,7 +225,7 @@ def exec (st : VStore) (d : DStmt) : VStore × Outcome :=
   | .construct | .deconstruct =>
     -- Statement.Init: every graph named anywhere in the statement must exist
     if !(d.graphNames ++ d.inputs ++ d.outputs).all st.exists then (st, .rejected) else
-    match instAll (fun b => d.outBindings.contains b) d.ccs (whereRows st d) st.nextBlank with
+    match (whereRows st d).bind fun rows => instAll (fun b => d.outBindings.contains b) d.ccs rows st.nextBlank with
     | .error _ => (st, .failed)      -- the real engine may have written some of the triples by then
     | .ok (ts, next) =>
       let st := { st with nextBlank := next }
